@@ -2,53 +2,45 @@
    Only statements; each is closed by [exact] of a lemma of Proof/Storage.v.
    [st_c12 s]: for every open allocation of the model state the challenge pool node exists and its
    balance is the sum of the per-blobber ChallengePoolIntegralValue (all values >= 0, the sum fits
-   uint64, the write pool is >= 0).  The faithful model contains two defects of the code under
-   which the equality breaks; [ss_fired] is true exactly for the transactions that exercise them. *)
+   uint64, the write pool is >= 0).
+   Two defects found by this check were repaired in /repo and the model follows the repaired code:
+   24f47c9 (replaceBlobber's killed branch did not save the challenge pool) and f86df8b
+   (adjustChallengePool subtracted from ChallengePoolIntegralValue unchecked). *)
 From Coq Require Import ZArith List Bool.
 From ZC Require Import Model.F64 Model.Storage Proof.StorageUtil Proof.Storage Proof.StorageWitness.
 Import ListNotations.
 Open Scope Z_scope.
 
-(* The property as stated: every transaction of every history keeps the equality. *)
-Definition C12_full_statement : Prop :=
+(* Every modelled transaction (new/free allocation, write-pool lock, commit connection
+   upload/delete/rollback, challenge generation, challenge response pass/fail with penalty and
+   reward, update allocation extend/add/replace incl. killed blobbers, finalize, cancel, read pool
+   lock/unlock, read marker, kill/shutdown blobber, blobber settings, assigner registration), accepted
+   or rejected, keeps the equality.  [ss_op_wf]: transaction values are >= 0 and a passed challenge
+   rewards at least one validator (num_validators_rewarded >= 1 is enforced by Config.validate). *)
+Theorem C12_step :
   forall c s t, st_c12 s -> ss_op_wf (snd t) -> st_c12 (fst (ss_step c s t)).
-
-(* It is false of the code as it is. *)
-(* F-12b: adjustChallengePool subtracts a negative change from the blobber's value without a check;
-   a change larger than the value wraps the uint64 around while the pool is debited correctly. *)
-Theorem C12_refuted_adjust_wrap :
-  st_c12 sw_wrap_state /\ ss_op_wf (snd sw_wrap_txn) /\ ~ st_c12 (fst (ss_step sw_conf sw_wrap_state sw_wrap_txn)).
 Proof.
-  split; [apply st_c12b_spec; vm_compute; reflexivity|]. split; [vm_compute; discriminate|].
-  apply st_c12b_false. vm_compute. reflexivity.
+  intros c s [[now round] o] Hs Hwf. unfold ss_step. cbn [snd] in Hwf.
+  destruct (ss_apply c s now round o) as [s'|] eqn:E; cbn; [exact (ss_apply_c12 _ _ _ _ _ _ Hs Hwf E) | exact Hs].
 Qed.
-Print Assumptions C12_refuted_adjust_wrap.
+Print Assumptions C12_step.
 
-Theorem C12_full_statement_refuted : ~ C12_full_statement.
-Proof.
-  intros H. destruct C12_refuted_adjust_wrap as [H1 [H2 H3]]. apply H3. apply H; assumption.
-Qed.
-Print Assumptions C12_full_statement_refuted.
-
-(* Outside exactly this trigger every modelled operation (new/free allocation, write-pool
-   lock, commit connection upload/delete/rollback, challenge generation, challenge response
-   pass/fail with penalty and reward, update allocation extend/add/replace, finalize, cancel, read
-   pool lock/unlock, read marker, kill/shutdown blobber, blobber settings, assigner registration)
-   preserves the equality.  [ss_op_wf]: transaction values are >= 0 and a passed challenge rewards
-   at least one validator (num_validators_rewarded >= 1 is enforced by the configuration check). *)
-Theorem C12_step_partial :
-  forall c s now round o s',
-    st_c12 s -> ss_op_wf o -> ss_apply c s now round o = Some s' -> ss_fired c s now round o = false -> st_c12 s'.
-Proof. exact ss_apply_c12. Qed.
-Print Assumptions C12_step_partial.
-
-(* Lifted over histories: after any sequence of transactions (accepted or rejected) in which no
-   defect fired, every open allocation still satisfies the equality. *)
-Theorem C12_history_partial :
-  forall c ts s,
-    st_c12 s -> Forall (fun t => ss_op_wf (snd t)) ts -> ss_run_fired c s ts = false -> st_c12 (fst (ss_run c s ts)).
+(* Lifted over histories, starting from any state satisfying the equality (e.g. no allocations). *)
+Theorem C12_history :
+  forall c ts s, st_c12 s -> Forall (fun t => ss_op_wf (snd t)) ts -> st_c12 (fst (ss_run c s ts)).
 Proof. exact ss_run_c12. Qed.
-Print Assumptions C12_history_partial.
+Print Assumptions C12_history.
+
+Theorem C12_initial : forall s, st_allocs s = [] -> st_c12 s.
+Proof. exact st_c12_no_allocs. Qed.
+Print Assumptions C12_initial.
+
+(* The only unchecked uint64 operation left on the per-blobber value (`+= change` in
+   adjustChallengePool) never wraps on a state satisfying the equality. *)
+Theorem C12_unchecked_add_never_wraps :
+  forall c s now round o, st_c12 s -> ss_op_wf o -> ss_fired c s now round o = false.
+Proof. exact ss_never_fired. Qed.
+Print Assumptions C12_unchecked_add_never_wraps.
 
 (* Closing (finalize or cancel) removes the allocation together with its pool. *)
 Theorem C12_close_removes_pool :
@@ -57,20 +49,24 @@ Theorem C12_close_removes_pool :
 Proof. exact ss_close_removes. Qed.
 Print Assumptions C12_close_removes_pool.
 
-(* Non-vacuity: a reachable-looking state on which an upload moves tokens into the pool, a lock
-   tops up the write pool and the owner's cancel closes the allocation; no defect fires, the
-   equality holds with a non-zero pool in between and the allocation is gone at the end. *)
-(* Replacing a killed blobber (the repaired path): the pool is debited by the blobber's value. *)
+(* Non-vacuity 1: replacing a killed blobber (repaired path) debits the pool by the blobber's value. *)
 Example C12_replace_killed_example :
+  st_c12b sw_killed_state = true /\
   snd (ss_step sw_conf sw_killed_state sw_killed_txn) = true /\
-  (let '(n, r, o) := sw_killed_txn in ss_fired sw_conf sw_killed_state n r o) = false /\
   map (fun a => (al_cp a, map ba_cpiv (al_bas a), al_mb a)) (st_allocs (fst (ss_step sw_conf sw_killed_state sw_killed_txn)))
     = [(Some 0, [0; 0], 97384982)].
 Proof. vm_compute. repeat split; reflexivity. Qed.
 
+(* Non-vacuity 2: an extension whose negative adjustment exceeds the blobber's value is rejected
+   (repaired path) and leaves the state as it was. *)
+Example C12_adjust_rejected_example :
+  st_c12b sw_wrap_state = true /\ ss_step sw_conf sw_wrap_state sw_wrap_txn = (sw_wrap_state, false).
+Proof. vm_compute. split; reflexivity. Qed.
+
+(* Non-vacuity 3: an upload moves tokens into the pool, a lock tops up the write pool and the
+   owner's cancel closes the allocation; the equality holds with a non-zero pool in between. *)
 Example C12_example :
   snd (ss_run sw_conf sw_killed_state sw_ok_txns) = [true; true; true] /\
-  ss_run_fired sw_conf sw_killed_state sw_ok_txns = false /\
   map (fun a => (al_cp a, map ba_cpiv (al_bas a))) (st_allocs (fst (ss_run sw_conf sw_killed_state (firstn 2 sw_ok_txns))))
     = [(Some 98350693, [97384982; 965711])] /\
   st_allocs (fst (ss_run sw_conf sw_killed_state sw_ok_txns)) = [].
